@@ -2,6 +2,7 @@ import TinyFlux.Mirror.Search
 import TinyFlux.Mirror.Ops
 import TinyFlux.Mirror.Reads
 import TinyFlux.Mirror.Closed
+import TinyFlux.Mirror.DbSearch
 /-!
 # C01 over the translated source: the leaf searches of `tinyflux/index.py`
 
@@ -92,5 +93,25 @@ theorem translated_contains_closed (norm : Point → Point) (g : DSelf) (q : Que
     (h : modelContains (absDB norm g) q m = .ok b) :
     DatabaseImpl.contains translatedExt g q m = .ok b :=
   contains_closed norm g q m b hg hts h
+
+/-- `TinyFlux.search` of database.py as translated (type check of the query, index path with the fall-back to a scan when
+    every position matches and the early exit once all positions are seen, scan path, the time check, the stable sort by time):
+    on every state what the Model's `step` computes for `.search` (`model_search_is_the_models_step`), errors included — which
+    `search_refines` (Props/C01.lean) proves to be exactly the stored points that satisfy the query -/
+theorem translated_search (norm : Point → Point) (g : DSelf) (q : Query) (m : Option String) (sorted : Bool) :
+    DatabaseImpl.search modelExt g q m sorted = liftE (modelSearch (absDB norm g) q m sorted) :=
+  db_search_ok norm g q m sorted
+
+/-- … and over the translated `Index.search`: generated code from `TinyFlux.search` down to `find_*` -/
+theorem translated_search_closed (norm : Point → Point) (g : DSelf) (q : Query) (m : Option String) (sorted : Bool)
+    (hg : GWF g._index) (hts : g._index._timestamps.length = g._index._storage_pos_sorted_by_ts.length) :
+    match modelSearch (absDB norm g) q m sorted with
+    | .ok l => DatabaseImpl.search translatedExt g q m sorted = .ok l
+    | .error _ => ∃ e', DatabaseImpl.search translatedExt g q m sorted = .error e' :=
+  db_search_closed norm g q m sorted hg hts
+
+theorem model_search_is_the_models_step (s : State) (q : Query) (m : Option String) (sorted : Bool) :
+    (s.step (.search q m sorted)).2 = State.outOf (modelSearch s.readOp q m sorted) (fun l => .points l) :=
+  model_search_is_step s q m sorted
 
 end TinyFlux.Props.C01
